@@ -197,10 +197,28 @@ def run_op(op, pool=None):
         msg = pool[op["pool"]] if pool is not None else _make(op["msg"])
         if o == "inspect":
             return _msg_result(msg)
+        if o == "iadd" and not hasattr(msg, op["name"]):
+            return ["refused", "absent"]
         before = _snapshot(msg)
         had = op["name"] in getattr(msg, "__dict__", {}) or hasattr(type(msg), op["name"])
         try:
-            if o == "set":
+            if o == "iadd":
+                # `msg.name += value`: read the attribute, apply the in-place operator (which mutates a
+                # mutable object where it stands), assign the result back - the assignment must be
+                # refused AND nothing about the message may have changed
+                cur = getattr(msg, op["name"])
+                if isinstance(cur, (bytes, bytearray)):
+                    cur += b"\x2a"
+                elif isinstance(cur, list):
+                    cur += [42]
+                elif isinstance(cur, str):
+                    cur += "*"
+                elif isinstance(cur, (int, float)) and not isinstance(cur, bool):
+                    cur += 1
+                else:
+                    cur = (cur, 42)
+                setattr(msg, op["name"], cur)
+            elif o == "set":
                 setattr(msg, op["name"], dec(op["value"]))
             else:
                 delattr(msg, op["name"])
@@ -208,7 +226,7 @@ def run_op(op, pool=None):
         except Exception as err:  # pylint: disable=broad-except
             tname = type(err).__name__
             if tname == "UBXMessageError" or (o == "del" and not had and tname == "AttributeError"):
-                outcome = ["refused", "UBXMessageError" if had or o == "set" else "refused-absent"]
+                outcome = ["refused", "UBXMessageError" if had or o in ("set", "iadd") else "refused-absent"]
             else:
                 outcome = ["MUTATED", f"{o} {op['name']} raised {tname} instead of UBXMessageError"]
         after = _snapshot(msg)
@@ -508,6 +526,8 @@ def _build_catalogue_body():
     for i in good[:: max(1, len(good) // 48)][:48]:
         pool_src.append(ops[i])
     pool_src.append({"o": "cfgpoll", "layer": 0, "pos": 0, "keys": [keys[0][0]]})
+    pool_src.append({"o": "cfgset", "layers": 1, "txn": 0, "data": [[keys[0][0], 1 if keys[0][1][1][0] in "UEL" else 0]]})
+    pool_src.append({"o": "cfgdel", "layers": 2, "txn": 0, "keys": [keys[0][0], keys[1][0]]})
     pool_src.append({"o": "new", "cls": "CFG", "id": "CFG-MSG", "mode": 1, "kw": {"msgClass": 240, "msgID": 4, "rateUART1": 1}})
     names_private = ("_payload", "_immutable", "_checksum", "_ubxClass", "_ubxID", "_length", "_mode", "_parsebf")
     names_new = ("foo", "newAttr", "payload2", "__class__x", "__doc__", "__brand_new__", "__dict__", "__wrapped__", "__module__", "_", "__x")
@@ -519,6 +539,8 @@ def _build_catalogue_body():
         for name in cand:
             add({"o": "set", "pool": j, "msg": src, "name": name, "value": values[(j + len(name)) % len(values)]}, "mutate")
             add({"o": "del", "pool": j, "msg": src, "name": name}, "mutate")
+        for name in ("payload", "_payload", "_checksum", "_length", "length", "identity", "<pub0>", "<publast>"):
+            add({"o": "iadd", "pool": j, "msg": src, "name": name}, "mutate")
     return {"ops": ops, "fam": fam, "pool": pool_src}
 
 
@@ -583,7 +605,7 @@ def _cold(op):
     led = Ledger()
     try:
         t0 = tables_digest()
-        if op["o"] in ("set", "del", "inspect"):
+        if op["o"] in ("set", "del", "inspect", "iadd"):
             try:
                 msg = _make(op["msg"])
             except Exception as err:  # pylint: disable=broad-except
@@ -689,7 +711,7 @@ def _exec_scenario(scn, goldens, sched_seed=None):
         snaps = [None if m is None else _snapshot(m) for m in pool]
 
         def do(op):
-            if op["o"] in ("inspect", "set", "del"):
+            if op["o"] in ("inspect", "set", "del", "iadd"):
                 msg = pool[op["pool"]]
                 if msg is None:
                     return None
@@ -706,7 +728,7 @@ def _exec_scenario(scn, goldens, sched_seed=None):
                 stats.hit("ops")
                 if res[0] == "exc":
                     stats.hit("aborted_ops")
-                if op["o"] == "set":
+                if op["o"] in ("set", "iadd"):
                     stats.hit("setattr_attempts")
                 if op["o"] == "del":
                     stats.hit("delattr_attempts")
